@@ -208,7 +208,7 @@ def entry_scenarios(tier, what):
 def run(repo, cfg, pid, tier, seed, build):
     t0 = time.time()
     o = dict(engine="S", name="symexec", bounded=True, failures=[], undecided=[], obligations=0, discharged=0, samples=[], cmds=[], not_decided=[],
-             bound=cfg.get("bound", "n<=5 (quick) / n<=7 (thorough) knots, lanes in {(),(1),(2),(2,2),(3,2) dyn}; all real values"))
+             bound=cfg.get("bound", "exhaustive shapes: n in {3,4,5,8,9,11} knots (quick) / up to 14 (thorough), every ordered pair of end conditions, trailing shapes (),(1),(2),(2,2),(3,2),(2,2,2),(3,1),(2,3,1),(2,1,3) incl. dynamic rank; family `large`: n = 40 / 36 (quick), up to 130 knots and 125 lanes (thorough), decided at exact rational points; all real values"))
     binary, err = build_runner(repo, build)
     if binary is None:
         o["undecided"].append("runner does not build against the working tree: %s" % err[-600:])
